@@ -176,12 +176,20 @@ class Den:
         v = self.ev[first].get('pre', {}).get(0)
         n = 0
         skipped = 0
-        while v is not None and v[0] == 'mut' and n < 50:
-            e = self.ev[v[1]]
-            if e['kind'] == 'call' and e['name'] == 'next' and e.get('trait') == ITER and self.next_header.get(v[1]) is None:
-                skipped += 1
-            v = e.get('pre', {}).get(v[2])
+        while v is not None and v[0] in ('mut', 'phi') and n < 60:
             n += 1
+            if v[0] == 'mut':
+                e = self.ev[v[1]]
+                if e['kind'] == 'call' and e['name'] == 'next' and e.get('trait') == ITER and self.next_header.get(v[1]) is None:
+                    skipped += 1
+                v = e.get('pre', {}).get(v[2])
+            else:
+                # a loop-carried iterator local: what it held when its loop was entered (the loop that havocs it records that)
+                enter = next((e for e in self.ev if e['kind'] == 'loop-enter' and e['header'] == v[1] and e.get('hv') == v[2]), None)
+                b = enter['before'].get(v[3]) if enter else None
+                if b is None:
+                    break
+                v = b
         if v is None or v[0] in ('phi', 'phiheap'):
             v = self.iter_value.get(loc, v)
         return v, skipped
